@@ -1,2 +1,3 @@
 import RProofs.BSet
 import RProofs.BSetQuery
+import RProofs.Facts.Constants
